@@ -359,7 +359,7 @@ def run_send(scn):
                 trace.append('delivered ' + enc_data(got[0][2]))
             else:
                 trace.append(f'delivered-{len(got)}-times')
-            rec.update(result='ret', ret=ret, delivered=got)
+            rec.update(result='ret', ret=ret, delivered=got, delivered_index=len(log))
         sends.append(rec)
 
     vtime.run(main)
@@ -503,8 +503,10 @@ def oracle(scn, res):
                         'what': f"phase {r['phase']}: send -> {r['result']}, delivered {r['delivered']}"})
             continue
         got = r['delivered'][0][2]
-        if r['ret'] != ('R', r['ret'][1]) or not isinstance(r['ret'], tuple):
-            out.append({'clause': 'returns_handler_result', 'what': f"returned {r['ret']!r}"})
+        want_ret = ('R', r['delivered_index'])
+        if r['ret'] != want_ret:
+            out.append({'clause': 'returns_handler_result',
+                        'what': f"send() returned {r['ret']!r}, the handler of {r['delivered'][0][0]} returned {want_ret!r}"})
         gsrc = got.get('source')
         want_src = (r['default_source'] if src == '<absent>' else (src if src.startswith('_ext_') else '_ext_' + src))
         if not isinstance(gsrc, str) or not gsrc.startswith('_ext_') or gsrc != want_src:
